@@ -566,6 +566,46 @@ func c19Read(x *mc.X, h *c19Handles, m *c19Model, group int) {
 			if err := ix.Fill([]Item{{Address: c19Probes[0]}}); !isNotFound(err) {
 				x.Fail("fill-absent-key", "%s: Fill(absent key) = %v, want driver.ErrNotFound", ctx, err)
 			}
+			// The same lookups with items that already carry non-key fields, as a
+			// caller has them who re-uses a slice from an earlier Get/Fill: every value
+			// the index ever held (x, y, z), a value it never held (q) and a field the
+			// index does not encode. What the index stores must win over what the
+			// caller brought, for present, overwritten and absent keys alike.
+			for _, stale := range []string{"x", "y", "z", "q"} {
+				for _, k := range all {
+					want, present := m.idx[i][string(k)]
+					got, err := ix.Get(Item{Address: k, Data: []byte(stale), StoreTimestamp: 7})
+					if present {
+						if err != nil || string(got.Data) != want || !bytes.Equal(got.Address, k) {
+							x.Fail("get-wrong-item:stale-caller-fields", "%s: Get({%x, Data %q}) = {%x %q}, %v; the index holds %q", ctx, k, stale, got.Address, got.Data, err, want)
+						}
+					} else if !isNotFound(err) {
+						x.Fail("get-absent-key:stale-caller-fields", "%s: Get({%x, Data %q}) of an absent key = %v, item %+v", ctx, k, stale, err, got)
+					}
+				}
+				refill := make([]Item, 0)
+				for _, k := range keys {
+					refill = append(refill, Item{Address: []byte(k), Data: []byte(stale), StoreTimestamp: 7})
+				}
+				if err := ix.Fill(refill); err != nil {
+					x.Fail("fill-present-keys-fails", "%s: Fill(present keys carrying Data %q) = %v", ctx, stale, err)
+				}
+				for j, k := range keys {
+					if string(refill[j].Data) != m.idx[i][k] || string(refill[j].Address) != k {
+						x.Fail("fill-wrong-item:stale-caller-fields", "%s: Fill of item {%x, Data %q} = {%x %q}; the index holds %q", ctx, k, stale, refill[j].Address, refill[j].Data, m.idx[i][k])
+					}
+					if m.idx[i][k] != stale {
+						x.Tag("fill-over-stale-caller-value")
+					}
+				}
+				for _, k := range all {
+					if _, present := m.idx[i][string(k)]; !present {
+						if err := ix.Fill([]Item{{Address: k, Data: []byte(stale)}}); !isNotFound(err) {
+							x.Fail("fill-absent-key:stale-caller-fields", "%s: Fill({%x, Data %q}) of an absent key = %v", ctx, k, stale, err)
+						}
+					}
+				}
+			}
 		case "count":
 			n, err := ix.Count()
 			if err != nil || n != len(keys) {
